@@ -19,8 +19,9 @@ def stepCore (st : DriverState) (fields : List String) : DriverState × String :
     | none => (st, "none")
   | ["dump.invname", k] => (st, s!"ok\t{canonName k}")
   -- C14 / C02: a name as the parser sees it → canonical symbol → table entry (+prefix)
+  | ["resolve", ""] => (st, s!"ok\t1\t{bitsStr 1.0}\t{bitsStr 0.0}\t{Dim.one.str}")
   | ["resolve", name] =>
-    let c := canonName name
+    let c := nameToSymbol name
     match resolve st.pre (st.luts[0]!) c with
     | some e => (st, s!"ok\t{c}\t{bitsStr e.scale}\t{bitsStr e.offset}\t{e.dim.str}")
     | none => (st, "err\tUnitParseError")
